@@ -49,7 +49,7 @@ def build_pool(scratch):
     add("P10", lambda: pm.remove_iiv(pool["P0"], "CL"))
     add("P11", lambda: pm.remove_iiv(pool["P0"]))
     add("P12", lambda: pm.add_covariate_effect(pool["P0"], "CL", "APGR", "exp"))
-    add("P13", lambda: pm.add_covariate_effect(pool["P12"], "VC", "APGR", "lin"))
+    add("P13", lambda: pm.add_peripheral_compartment(pool["P12"]))
     add("P14", lambda: pm.add_iov(pool["P0"], "FA1", ["CL"]))
     add("P15", lambda: pm.set_michaelis_menten_elimination(pool["P0"]))
     add("P16", lambda: pm.set_mixed_mm_fo_elimination(pool["P0"]))
@@ -495,6 +495,9 @@ def _ev(ast, info, rv):
         kind = name.rsplit("_", 1)[1]
         own = [v for n, v in rv.gradients if info.kind.get(n) == kind]
         other = [v for n, v in rv.gradients if info.kind.get(n) != kind]
+        if getattr(rv, "grad_variant", False):
+            # attribution variant (listed finding): the NaN test reads the theta gradients for every kind
+            return any(v == 0 for v in own) or any(v != v for n, v in rv.gradients if info.kind.get(n) == "theta")
         if any(v == 0 or v != v for v in own):
             return True
         if any(v != v for v in other):
